@@ -4,7 +4,7 @@ the quick checks. Shows which small changes no check reports; survivors are then
 own tests and looked at by hand (equivalent mutant / outside every property / genuine gap).
 
   tools/mutate.py gen [N]            -> /root/mut/mutants.jsonl (about N mutants, evenly strided per file)
-  tools/mutate.py run <k> <n> [T]    -> worker k of n (T harness threads), appends to /root/mut/results.jsonl
+  tools/mutate.py run <k> <n> [T] [dir] [reverse] -> worker k of n (T harness threads), appends to /root/mut/results.jsonl
   tools/mutate.py report             -> summary + survivors
 
 Nothing is ever written to /repo or /verif: every worker has its own copy under /root/mut/w<k>/.
@@ -127,8 +127,16 @@ def append_result(r):
         fh.write(json.dumps(r) + "\n")
 
 
-def run(k, n, threads):
-    w = f"{ROOT}/w{k}"
+def done_ids():
+    done = set()
+    if os.path.exists(f"{ROOT}/results.jsonl"):
+        for l in open(f"{ROOT}/results.jsonl"):
+            done.add(json.loads(l)["id"])
+    return done
+
+
+def run(k, n, threads, name=None, reverse=False):
+    w = f"{ROOT}/{name or 'w' + str(k)}"
     os.makedirs(w, exist_ok=True)
     sh(f"rsync -a --delete --exclude target --exclude .git /repo/ {w}/repo/")
     sh(f"rsync -a --delete --exclude target --exclude .git --exclude seeded --exclude replay /verif/ {w}/verif/")
@@ -138,13 +146,11 @@ def run(k, n, threads):
     if rc != 0:
         print("baseline fails in worker", k, rc, out[-2000:])
         sys.exit(2)
-    done = set()
-    if os.path.exists(f"{ROOT}/results.jsonl"):
-        for l in open(f"{ROOT}/results.jsonl"):
-            done.add(json.loads(l)["id"])
     muts = [json.loads(l) for l in open(f"{ROOT}/mutants.jsonl")]
+    if reverse:
+        muts.reverse()
     for m in muts:
-        if m["id"] % n != k or m["id"] in done:
+        if m["id"] % n != k or m["id"] in done_ids():
             continue
         if os.path.exists(f"{ROOT}/STOP"):
             break
@@ -195,6 +201,6 @@ if __name__ == "__main__":
     if sys.argv[1] == "gen":
         gen(int(sys.argv[2]) if len(sys.argv) > 2 else 400)
     elif sys.argv[1] == "run":
-        run(int(sys.argv[2]), int(sys.argv[3]), int(sys.argv[4]) if len(sys.argv) > 4 else 4)
+        run(int(sys.argv[2]), int(sys.argv[3]), int(sys.argv[4]) if len(sys.argv) > 4 else 4, sys.argv[5] if len(sys.argv) > 5 else None, len(sys.argv) > 6)
     else:
         report()
